@@ -229,3 +229,65 @@ Example ex_ordinary_keys :
   let se := pop (fst (calc_body (calc f sy pp) sy pp (push (4, p) (init [])) 4 p)) in
   ordinary_keys sy se = true /\ List.length (invalid se) = 6 /\ List.length (cache se) = 5.
 Proof. vm_compute. repeat split. Qed.
+
+(** * Sentence 2 from conditions on the rule system, the initial cache and the request only.
+
+    [gpb n q] (proofs/EngineC02Closure.v, decidable): [q] has a dated unit, a valid start in a
+    year > n, and a start day <= 28 when its unit is month or year.  The year bound pays for
+    look-backs: each nesting level may go back up to two years, the depth is at most the fuel.
+    [sys_good sy B] (semantic): no eternal variable, and for 0 <= n <= B every dependency of
+    every formula maps a size-1 [gpb (n+2)] period of the variable's unit to [gpb n] periods
+    (the requested period for a plain dependency, its sub-periods for ADD, the enclosing
+    period for DIVIDE).
+    [sys_okb B sy] (proofs/EngineC02Syntactic.v, a boolean check that implies it): no eternal
+    variable; transformations PSame, PThisYear, PFirstMonth, PFirstDay, PFirstWeekday,
+    PLastMonth, PLastYear, PN2, PFixed q with [gpb B q], POffset k in the formula's own unit
+    with k >= -24 (month), >= -2 (year), >= 0 (day, weekday, week); ADD / DIVIDE on
+    dependencies whose unit is year, month, day or weekday.  Missing from the check (not from
+    the semantic theorem): PFirstWeek, negative day / week offsets, ADD / DIVIDE of week
+    variables. *)
+From Verif Require Import EngineC02Closure EngineC02Syntactic.
+
+Theorem retained_values_justified_good_system : forall sy pp f s0 v p,
+  sys_good sy (2 * Z.of_nat f) ->
+  stack s0 = [] -> invalid s0 = [] -> ordinary_keys sy s0 = true ->
+  gpb (2 * Z.of_nat f + 2) p = true ->
+  let s1 := fst (calc (S f) sy pp s0 v p) in
+  forall k a, lookup k (cache s1) = Some a -> lookup k (cache s0) <> Some a ->
+  exists W : list (key * val),
+    (forall k' a', lookup k' W = Some a' -> k' <> k /\ lookup k' (cache s1) = Some a') /\
+    snd (calc (S f) sy pp {| cache := W; stack := []; invalid := [] |} (fst k) (snd k)) = Ok a.
+Proof. exact retained_justified_closed. Qed.
+Print Assumptions retained_values_justified_good_system.
+
+Theorem checked_system_is_good : forall B sy, sys_okb B sy = true -> sys_good sy B.
+Proof. exact sys_okb_sound. Qed.
+Print Assumptions checked_system_is_good.
+
+Theorem retained_values_justified_checked_system : forall sy pp f s0 v p,
+  sys_okb (2 * Z.of_nat f) sy = true ->
+  stack s0 = [] -> invalid s0 = [] -> ordinary_keys sy s0 = true ->
+  gpb (2 * Z.of_nat f + 2) p = true ->
+  let s1 := fst (calc (S f) sy pp s0 v p) in
+  forall k a, lookup k (cache s1) = Some a -> lookup k (cache s0) <> Some a ->
+  exists W : list (key * val),
+    (forall k' a', lookup k' W = Some a' -> k' <> k /\ lookup k' (cache s1) = Some a') /\
+    snd (calc (S f) sy pp {| cache := W; stack := []; invalid := [] |} (fst k) (snd k)) = Ok a.
+Proof. exact retained_justified_syntactic. Qed.
+Print Assumptions retained_values_justified_checked_system.
+
+(** Non-vacuity: the system of [ex_retained_justified] passes the check, with an input. *)
+Example ex_checked_system :
+  let mv e := mk_var EPerson TInt Month None [((1, 1, 1)%Z, e)] 0%Z false false in
+  let sy := {| vars := [ mv (EBin BAdd (EDep 1 PLastMonth OPlain) (EConst 1));
+                         mv (EBin BAdd (EDep 0 PSame OPlain) (EConst 1));
+                         mv (EBin BMul (EConst 10) (EDep 0 PSame OPlain));
+                         mv (EDep 1 PSame OPlain);
+                         mv (EBin BAdd (EDep 3 PSame OPlain) (EDep 2 PSame OPlain)) ];
+               params := []; switches := []; max_loops := 1 |} in
+  let p : period := (Month, (2018, 3, 1)%Z, 1%Z) in
+  let f := (max_loops sy + 2) * List.length (vars sy) in
+  sys_okb (2 * Z.of_nat f) sy = true /\
+  ordinary_keys sy (init [((2, p), [5%Z])]) = true /\
+  gpb (2 * Z.of_nat f + 2) p = true.
+Proof. vm_compute. repeat split. Qed.
